@@ -102,6 +102,14 @@ def directed(prop, world, quick):
                       {"op": "getinfo", "c": 1, "target": 2}, {"op": "setinfo", "c": 2, "name": [], "icon": 3, "icon4": False, "opts": 0, "auto": [34]},
                       {"op": "userlist", "c": 1}, {"op": "close", "c": 2}, {"op": "userlist", "c": 1}]
             out.append({"world": world, "steps": steps})
+        # private messages to recipients with every combination of refuse-messages and automatic reply
+        for opts in (0, 1, 4, 5, 7):
+            steps = [connect(1), login(1, "adm", [1]), connect(2, "10.2.2.2"), login(2, "", [], flow="new", name=A),
+                     {"op": "agreed", "c": 2, "name": B, "icon": 2, "opts": opts, "auto": [33]},
+                     {"op": "pm", "c": 1, "target": 2, "msg": [112]}, {"op": "pm", "c": 2, "target": 1, "msg": [112]},
+                     {"op": "setinfo", "c": 2, "name": B, "icon": 3, "icon4": False, "opts": 5 if opts == 0 else 0, "auto": [34]},
+                     {"op": "pm", "c": 1, "target": 2, "msg": [112]}, {"op": "userlist", "c": 1}]
+            out.append({"world": world, "steps": steps})
         # a disconnect in two steps (peer gone / registry entry removed) with another user's request in between
         steps = [connect(1), login(1, "adm", [1]), connect(2, "10.2.2.2"), login(2), connect(3, "10.1.1.12"), login(3, "mod", [3]),
                  {"op": "userlist", "c": 1}, {"op": "closebegin", "c": 2}, {"op": "userlist", "c": 1}, {"op": "pm", "c": 3, "target": 2, "msg": [112]},
